@@ -41,7 +41,12 @@ CLAIMS = {
          "generated program, each with the signature environment dumped from the real genv/monoenv/liftenv (annotations the dumps drop are "
          "cross-checked in the harness), and an ill-typed stream (one type error of 11 kinds injected at one forced position of a "
          "well-typed generated program, plus 32 hand-written programs around wildcard array lengths, fields, arities, arguments) must be "
-         "rejected by the real compiler in the typer stage.",
+         "rejected by the real compiler in the typer stage."
+         " Argument count (Props/C03Arity.lean: wt_call_arg_count, wt_call_declared_count, wt_call_builtin_count, wt_dyncall_count, "
+         "wt_traitcall_count, wt_constr_count — a dump that passes Wt has, at every call form, as many arguments as the callee annotation, "
+         "the named declaration, the trait method signature or the constructor has parameters): a deterministic catalogue of every call "
+         "form x declared count 0..3 x written count x position, each with an accepted twin, must be rejected by the typer; a model-free "
+         "count oracle runs on every real stage dump.",
     design_ref="§5 C03, §C03 — as built",
     note="Proved: the theorems above about Wt / the mono model. Validated only: that the real stage dumps satisfy the judgement (oracle on "
          "every accepted program of the run, not a theorem about the typer), that ill-typed programs are rejected (sampled by injection). "
